@@ -13,6 +13,8 @@ from harness import absprog, core, regalloc_trace, watchdog
 from harness.tlc import MachineryError
 
 TRACE_CFG = """INIT Init
+VIEW View
+ALIAS Shown
 NEXT Next
 CHECK_DEADLOCK FALSE
 INVARIANT ReadsSeeLatestDef
@@ -43,9 +45,17 @@ CHECK_DEADLOCK FALSE
 INVARIANT %s
 """
 
-# (march for c_to_ir / ir_to_object, label)
-TARGETS_QUICK = ["x86_64", "arm", "arm:thumb", "riscv", "riscv:rvc", "msp430", "avr", "xtensa", "or1k", "m68k",
-                 "microblaze", "mips"]
+T64 = ["u8", "u8", "c8", "i16", "u16", "i32", "i32", "u32", "i64"]
+T32 = ["u8", "c8", "i16", "u16", "i32", "u32"]
+# (name, targets, C types for the pressure generator / absprog, IR types for irgen)
+PROFILES = [
+    ("w64", ["x86_64"], T64, None),
+    ("w32", ["riscv", "riscv:rvc", "arm", "arm:thumb", "microblaze", "x86_64"], T32,
+     ["i8", "u8", "i16", "u16", "i32", "u32"]),
+    ("w32only", ["arm", "arm:thumb", "microblaze", "or1k", "xtensa", "mips", "m68k", "riscv"], ["i32", "u32"],
+     ["i32", "u32"]),
+    ("w16", ["msp430", "avr"], ["i16", "u16", "u8"], ["i8", "u8", "i16", "u16"]),
+]
 MAX_W = 1500   # longer lists are counted as too large (recursion depth of the liveness sweep)
 
 CT = {"u8": "unsigned char", "c8": "signed char", "i16": "short", "u16": "unsigned short", "i32": "int",
@@ -116,59 +126,45 @@ def pressure_c(rng, types=None):
     return "\n".join(lines) + "\n"
 
 
-def sources(ctx, n_c, n_press, n_ir):
-    """[(key, kind, payload)]: C text or an irgen seed."""
+def sources(ctx, plan):
+    """[(key, kind, payload, targets)]: C text or an (irgen seed, types) pair.
+    plan: {profile name: (n_c, n_press, n_ir)}."""
     rng = ctx.rng
     out = []
-    for _ in range(n_press):
-        seed = rng.randrange(1 << 30)
-        out.append(("press%d" % seed, "c", pressure_c(random.Random(seed))))
-    for _ in range(n_c):
-        seed = rng.randrange(1 << 30)
-        prng = random.Random(seed)
-        prog = absprog.Gen(prng, max_funcs=3, max_stmts=7, max_depth=3).program()
-        out.append(("c%d" % seed, "c", absprog.render_c(prog)))
-    for _ in range(n_ir):
-        seed = rng.randrange(1 << 30)
-        out.append(("ir%d" % seed, "ir", seed))
+    for name, targets, ctypes, irtypes in PROFILES:
+        n_c, n_press, n_ir = plan.get(name, (0, 0, 0))
+        for _ in range(n_press):
+            seed = rng.randrange(1 << 30)
+            out.append(("press%d" % seed, "c", pressure_c(random.Random(seed), ctypes), targets))
+        for _ in range(n_c):
+            seed = rng.randrange(1 << 30)
+            prng = random.Random(seed)
+            prog = absprog.Gen(prng, max_funcs=3, max_stmts=7, max_depth=3, types=sorted(set(ctypes))).program()
+            out.append(("c%d" % seed, "c", absprog.render_c(prog), targets))
+        for _ in range(n_ir):
+            seed = rng.randrange(1 << 30)
+            out.append(("ir%d" % seed, "ir", (seed, irtypes), targets))
     return out
 
 
-def compile_one(kind, payload, march, level):
-    """Run the real pipeline; returns the allocator records (exceptions propagate)."""
-    from ppci import api
-
-    from harness import irgen
-
-    recs = []
-    if kind == "c":
-        m = api.c_to_ir(io.StringIO(payload), march)
-    else:
-        m, _ = irgen.gen_module(random.Random(payload))
-    if level != "0":
-        api.optimize(m, level=level)
-    with regalloc_trace.recording(recs.append):
-        api.ir_to_object([m], march)
-    return recs
-
-
-def record_corpus(ctx, srcs, targets, levels):
-    """Compile every source for every target; returns [(key, record)]."""
+def record_corpus(ctx, srcs, levels, only_targets=None):
+    """Compile every source for every target of its profile; returns [(key, record, source)]."""
     import logging
 
     logging.disable(logging.CRITICAL)
     out = []
     skipped = ctx.cov.setdefault("codegen_rejected_by_target", {})
     compiled = ctx.cov.setdefault("compiled_by_target", {})
-    for key, kind, payload in srcs:
+    for key, kind, payload, targets in srcs:
         for march in targets:
+            if only_targets is not None and march not in only_targets:
+                continue
             for level in levels:
                 what = "%s:%s:O%s" % (key, march, level)
                 got = []
                 try:
                     # a changed tree may loop forever: time-limited
                     def run(kind=kind, payload=payload, march=march, level=level, got=got):
-                        recs = []
                         from ppci import api
 
                         from harness import irgen
@@ -176,7 +172,7 @@ def record_corpus(ctx, srcs, targets, levels):
                         if kind == "c":
                             m = api.c_to_ir(io.StringIO(payload), march)
                         else:
-                            m, _ = irgen.gen_module(random.Random(payload))
+                            m, _ = irgen.gen_module(random.Random(payload[0]), types=payload[1])
                         if level != "0":
                             api.optimize(m, level=level)
                         with regalloc_trace.recording(got.append):
@@ -190,7 +186,7 @@ def record_corpus(ctx, srcs, targets, levels):
                     skipped[march] = skipped.get(march, 0) + 1
                 # allocations completed before an exception elsewhere are still allocations
                 for r in got:
-                    out.append(("C06:%s:%s" % (what, r["fn"]), r, payload if kind == "c" else "irgen seed %s" % payload))
+                    out.append(("C06:%s:%s" % (what, r["fn"]), r, payload if kind == "c" else "harness/irgen.py gen_module(random.Random(%d), types=%r)" % payload))
     logging.disable(logging.NOTSET)
     return out
 
@@ -374,12 +370,12 @@ class Engine:
             return self.replay(ctx)
         self.model_check(ctx, thorough)
         if thorough:
-            srcs = sources(ctx, n_c=40, n_press=60, n_ir=60)
+            plan = {"w64": (40, 60, 40), "w32": (20, 30, 30), "w32only": (10, 25, 15), "w16": (6, 10, 10)}
             levels = ("0", "2")
         else:
-            srcs = sources(ctx, n_c=5, n_press=8, n_ir=7)
+            plan = {"w64": (3, 6, 4), "w32": (1, 2, 2), "w32only": (1, 2, 1), "w16": (1, 2, 1)}
             levels = ("2",)
-        recs = record_corpus(ctx, srcs, TARGETS_QUICK, levels)
+        recs = record_corpus(ctx, sources(ctx, plan), levels)
         self.check_records(ctx, recs)
 
     def check_records(self, ctx, recs):
